@@ -42,4 +42,30 @@ theorem http_response_segmentation (fuel : Nat) (s₁ s₂ : SS) (h : s₁.flat 
     (runSeg (Http.readResponse fuel) s₁ {}).1 = (runSeg (Http.readResponse fuel) s₂ {}).1 :=
   (same_bytes_same_result _ s₁ s₂ {} h).1
 
+/-! ## whole exchanges (writes interleaved with reads), and the bytes left for the tunnel -/
+
+/-- the upstream CONNECT exchange of `h11c_connect` (request written, response head read, `Session-Id` parsed): verdict,
+bytes written and bytes left for the tunnel do not depend on how the upstream's answer is segmented -/
+theorem connect_exchange_segmentation (tbl : V6Tbl) (t : Addr) (f : Http.Feature) (ch bs : Bytes) (fuel : Nat)
+    (s₁ s₂ : SS) (w : W) (h : s₁.flat = s₂.flat) :
+    (runSeg (Http.connectExchange tbl t f ch bs fuel) s₁ w).1 = (runSeg (Http.connectExchange tbl t f ch bs fuel) s₂ w).1 ∧
+    (runSeg (Http.connectExchange tbl t f ch bs fuel) s₁ w).2.1.flat = (runSeg (Http.connectExchange tbl t f ch bs fuel) s₂ w).2.1.flat ∧
+    (runSeg (Http.connectExchange tbl t f ch bs fuel) s₁ w).2.2 = (runSeg (Http.connectExchange tbl t f ch bs fuel) s₂ w).2.2 :=
+  same_bytes_same_result _ s₁ s₂ w h
+
+/-- the SOCKS client dialogue (request written — with method negotiation and RFC 1929 for v5 — then the reply read) -/
+theorem socks_client_dialogue_segmentation (r : Socks.Request) (s₁ s₂ : SS) (w : W) (h : s₁.flat = s₂.flat) :
+    (runSeg (do Socks.writeRequest r; Socks.readResponse) s₁ w).1 = (runSeg (do Socks.writeRequest r; Socks.readResponse) s₂ w).1 ∧
+    (runSeg (do Socks.writeRequest r; Socks.readResponse) s₁ w).2.2 = (runSeg (do Socks.writeRequest r; Socks.readResponse) s₂ w).2.2 :=
+  ⟨(same_bytes_same_result _ s₁ s₂ w h).1, (same_bytes_same_result _ s₁ s₂ w h).2.2⟩
+
+/-- early data: whatever the client sent behind its request head reaches the tunnel identically -/
+theorem http_request_leftover (fuel : Nat) (s₁ s₂ : SS) (h : s₁.flat = s₂.flat) :
+    (runSeg (Http.readRequest fuel) s₁ {}).2.1.flat = (runSeg (Http.readRequest fuel) s₂ {}).2.1.flat :=
+  (same_bytes_same_result _ s₁ s₂ {} h).2.1
+
+theorem socks_request_leftover (required : Bool) (s₁ s₂ : SS) (h : s₁.flat = s₂.flat) :
+    (runSeg (Socks.readRequest required) s₁ {}).2.1.flat = (runSeg (Socks.readRequest required) s₂ {}).2.1.flat :=
+  (same_bytes_same_result _ s₁ s₂ {} h).2.1
+
 end Redproxy.Props.C12
